@@ -25,7 +25,7 @@
    or faulted anywhere, or a concurrent batch of swaps and reads under any schedule; for cuts of the excluded three the inequality is false (refutations).
 *)
 From Coq Require Import ZArith List Bool.
-From Verif Require Import Model Sem InvDb InvSwap InvMint InvMelt Corollaries Queries Footprint HRel Global GlobalQuote GlobalValue GlobalErr GlobalQuery GlobalMelt GlobalKeys Cuts CutOrder Conc Races GlobalBalance GlobalLedger Reconf GlobalPoll Trace Admin AdminProofs CutValue CutMint CutFrames ConcValue CutHistory CutBalance.
+From Verif Require Import Model Sem InvDb InvSwap InvMint InvMelt Corollaries Queries Footprint HRel Global GlobalQuote GlobalValue GlobalErr GlobalQuery GlobalMelt GlobalKeys Cuts CutOrder Conc Races GlobalBalance GlobalLedger Reconf GlobalPoll Trace Admin AdminProofs CutValue CutMint CutFrames ConcValue CutHistory CutBalance CutLedger.
 Import ListNotations.
 Open Scope Z_scope.
 
@@ -163,6 +163,20 @@ Theorem C07_mint_cut_states : forall (mem_ks : list ksrow) (active id : Z) (outs
        mint_cut_state id outs w (fst (run_n n (mint_tokens mem_ks active id outs sig) f w)).
 Proof. exact @mint_cut_states. Qed.
 Print Assumptions C07_mint_cut_states.
+
+Theorem C07_no_inflation_ledger_with_cuts : forall (cfg : config) (h : list hitem),
+       cfg_ok cfg ->
+       Forall cut_item h ->
+       hhonest cfg world0 h ->
+       Forall item_u64 h ->
+       hln_ok cfg world0 h ->
+       let w := hrun cfg world0 h in
+       let ip := snd (hltrace cfg world0 h []) in
+       vS w + ext_out w (map fst ip) <= vR w + per_quote (esett w) (d_mq (w_db w)) /\
+       NoDup (map fst ip) /\
+       (forall p : Z * Z, In p ip -> exists q : lquote, In q (d_lq (w_db w)) /\ lq_id q = fst p /\ lq_state q = 2).
+Proof. exact @no_inflation_ledger_with_cuts. Qed.
+Print Assumptions C07_no_inflation_ledger_with_cuts.
 
 Theorem C07_no_inflation_with_cuts : forall (cfg : config) (h : list hitem),
        cfg_ok cfg ->
